@@ -82,7 +82,7 @@ def gen(rng, tier):
         n = rng.choice([0, 1, 2, 3, 3, 4, 4, 5, 5, 6, 7])
         npairs = n * (n - 1) // 2
         c = rng.choice([1, 1, 2, 3, 4, 5, max(1, npairs), npairs + 1, npairs + 3, rng.randint(1, 30)])
-        mode = rng.choice(["perm", "perm", "repeat", "repeat", "missing", "single"])
+        mode = rng.choice(["perm", "perm", "repeat", "repeat", "missing", "single", "swap", "swap"])
         idx = list(range(c))
         if mode == "perm":
             rng.shuffle(idx)
@@ -92,6 +92,14 @@ def gen(rng, tier):
             rng.shuffle(order)
         elif mode == "missing":
             order = [k for k in idx if rng.random() < 0.7] or [rng.randrange(c)]
+            rng.shuffle(order)
+        elif mode == "swap" and c >= 2:
+            # as many chunk files as chunks, but one (or two) replaced by a repeat of another: the number of stored
+            # values can equal the number of pairs although pairs are missing
+            order = list(idx)
+            for _ in range(rng.choice([1, 1, 2])):
+                a, b = rng.sample(range(c), 2)
+                order[a] = order[b]
             rng.shuffle(order)
         else:
             order = [rng.randrange(c)]
